@@ -346,6 +346,9 @@ func c15SingleValued(p *Path) bool {
 
 func (c15) Exec(seed int64, i int, tier string) Record {
 	r := CaseRng(seed, "C15", i)
+	if i%25 == 11 {
+		return c15ForeignErrCase(r) // b11_helpers.go
+	}
 	o := DefaultOpts()
 	o.ErrBias = 15
 	plain := Config(false, nil)
